@@ -291,6 +291,9 @@ type replayVec struct {
 	Kind   string            `json:"kind"`
 	Detail string            `json:"detail,omitempty"`
 	Prefix []int32           `json:"prefix,omitempty"`
+	Kinds  string            `json:"kinds,omitempty"`
+	Goroutines int           `json:"goroutines,omitempty"`
+	Mode   string            `json:"replay_mode,omitempty"` // native | native-stress | engine-schedule
 	Stack  []string          `json:"stack,omitempty"`
 }
 
@@ -395,6 +398,53 @@ func (c *checker) runNative(entry string, vec replayVec) (*nativeResult, error) 
 		}
 	}
 	return r, nil
+}
+
+// confirmNative runs the native harness (up to n times) and reports whether the expected failure shows.
+func (c *checker) confirmNative(entry string, vec replayVec, kind, label string, n int) (bool, string) {
+	why := ""
+	for i := 0; i < n; i++ {
+		nr, err := c.runNative(entry, vec)
+		if err != nil {
+			return false, err.Error()
+		}
+		ok := false
+		switch kind {
+		case "assert":
+			ok = nr.failed == label
+		case "panic":
+			ok = nr.panicked && !nr.deadlock
+		case "deadlock":
+			ok = nr.deadlock
+		}
+		if ok {
+			return true, ""
+		}
+		why = fmt.Sprintf("native run: exit=%d failed=%q panicked=%v diverged=%v done=%v", nr.exit, nr.failed, nr.panicked, nr.diverged, nr.done)
+	}
+	return false, why
+}
+
+// confirmEngine re-executes the recorded path with every input concrete (no solver decisions):
+// an independent interpretation of the real code's SSA under the recorded schedule.
+func (c *checker) confirmEngine(prog *symgo.Program, fn *ssa.Function, e entryCfg, vec replayVec) bool {
+	opt := symgo.DefaultOptions()
+	opt.MapOrderAll = e.MapOrderAll
+	if e.Preemptions != nil {
+		opt.Preemptions = *e.Preemptions
+	}
+	cfg := symgo.Config{Entry: fn, Opt: opt, Workers: 1, Solver: c.solver, TimeoutMs: 20000, Tier: vec.Tier, Bounds: vec.Bounds,
+		StopOnViolation: true, ConcreteInputs: vec.Inputs, ConcretePrefix: vec.Prefix, ConcreteKinds: vec.Kinds}
+	if cfg.ConcreteInputs == nil {
+		cfg.ConcreteInputs = []symgo.InputVal{}
+	}
+	rep := symgo.Explore(prog, cfg)
+	for _, v := range rep.Violations {
+		if v.Kind == vec.Kind && (v.Kind != "assert" || v.Label == vec.Label) {
+			return true
+		}
+	}
+	return false
 }
 
 func (c *checker) effective(e0 entryCfg) entryCfg {
@@ -568,26 +618,25 @@ func (c *checker) run(only string) int {
 			if e.ExpectPanic && kind == "panic" {
 				continue
 			}
-			vec := replayVec{Tier: c.tier, Bounds: e.Bounds, Inputs: v.Inputs, Entry: e.Func, Prop: c.prop, Label: v.Label, Kind: v.Kind, Detail: v.Detail, Prefix: v.Prefix, Stack: v.Stack}
+			vec := replayVec{Tier: c.tier, Bounds: e.Bounds, Inputs: v.Inputs, Entry: e.Func, Prop: c.prop, Label: v.Label, Kind: v.Kind, Detail: v.Detail, Prefix: v.Prefix, Kinds: v.Kinds, Goroutines: v.Goroutines, Stack: v.Stack}
 			confirmed := false
 			why := ""
 			if c.noReplay {
 				confirmed = true
 			} else {
-				nr, err := c.runNative(e.Func, vec)
-				if err != nil {
-					why = err.Error()
-				} else {
-					switch kind {
-					case "assert":
-						confirmed = nr.failed == v.Label
-					case "panic":
-						confirmed = nr.panicked && !nr.deadlock
-					case "deadlock":
-						confirmed = nr.deadlock
-					}
-					if !confirmed {
-						why = fmt.Sprintf("native run: exit=%d failed=%q panicked=%v diverged=%v done=%v", nr.exit, nr.failed, nr.panicked, nr.diverged, nr.done)
+				confirmed, why = c.confirmNative(e.Func, vec, kind, v.Label, 1)
+				if confirmed {
+					vec.Mode = "native"
+				}
+				if !confirmed && v.Goroutines > 1 {
+					// schedule-dependent counterexample: the native run does not follow the engine's schedule.
+					// 1) native stress, 2) deterministic concrete re-execution of the recorded path in the engine
+					if ok, _ := c.confirmNative(e.Func, vec, kind, v.Label, 40); ok {
+						confirmed, vec.Mode = true, "native-stress"
+					} else if c.confirmEngine(prog, fn, e, vec) {
+						confirmed, vec.Mode = true, "engine-schedule"
+					} else {
+						why += "; engine concrete re-execution did not reproduce it either"
 					}
 				}
 			}
@@ -614,7 +663,7 @@ func (c *checker) run(only string) int {
 			rp := filepath.Join(verifDir, "replays", fmt.Sprintf("%s_%s_%d.json", c.prop, e.Func, i))
 			vb, _ := json.MarshalIndent(vec, "", " ")
 			os.WriteFile(rp, vb, 0o644)
-			violLines = append(violLines, fmt.Sprintf("VIOLATION property=%s replay=%s label=%q detail=%q", c.prop, rp, label, v.Detail))
+			violLines = append(violLines, fmt.Sprintf("VIOLATION property=%s replay=%s label=%q detail=%q confirmed=%s", c.prop, rp, label, v.Detail, vec.Mode))
 			exit = 1
 		}
 	}
@@ -784,6 +833,22 @@ func (c *checker) replayFile(path string) int {
 	var vec replayVec
 	if err := json.Unmarshal(b, &vec); err != nil {
 		fatal("%v", err)
+	}
+	if vec.Mode == "engine-schedule" {
+		prog, pkgmap := c.load()
+		for _, e0 := range c.pc.Entries {
+			e := c.effective(e0)
+			if e.Func != vec.Entry {
+				continue
+			}
+			fn := pkgmap[c.entryPkg(e)].Func(e.Func)
+			if c.confirmEngine(prog, fn, e, vec) {
+				fmt.Printf("VIOLATION property=%s replay=%s (reproduced by concrete re-execution of the recorded schedule in the engine; label %s)\n", c.prop, path, vec.Label)
+				return 1
+			}
+		}
+		fmt.Println("replay did not fail")
+		return 0
 	}
 	nr, err := c.runNative(vec.Entry, vec)
 	if err != nil {
